@@ -104,7 +104,19 @@ func c05(c *h.Ctx) {
 		for _, u := range unnamed {
 			tasks.Set(tk[u], tdef())
 		}
-		cfg := gen.OM{{K: "tasks", V: tasks}, {K: "pipelines", V: gen.OM{{K: "p", V: stages}}}}
+		// the pipeline under test is one of several of its configuration (the others are sound)
+		pipes := gen.OM{}
+		nOther := r.Intn(4)
+		at := r.Intn(nOther + 1)
+		for k := 0; k <= nOther; k++ {
+			if k == at {
+				pipes.Set("p", stages)
+			}
+			if k < nOther {
+				pipes.Set(fmt.Sprintf("other%d", k), []interface{}{gen.OM{{K: "name", V: "o1"}, {K: "task", V: "t"}}, gen.OM{{K: "name", V: "o2"}, {K: "task", V: "t"}, {K: "depends_on", V: []interface{}{"o1"}}}})
+			}
+		}
+		cfg := gen.OM{{K: "tasks", V: tasks}, {K: "pipelines", V: pipes}}
 		dir := caseDir(c, fmt.Sprintf("g%d", i))
 		defer os.RemoveAll(dir)
 		h.WriteFile(dir+"/f.yaml", gen.YAML(cfg))
